@@ -35,6 +35,9 @@ LEAFTYPES = [
     S("?n"),
     S("*?n"),
     S("?n m"),
+    S("m ?n"),
+    S("?n n"),
+    S("n ?n m"),
     S("?n ?k"),
     S("#?n"),
     ("union", [S("?n 3"), S("?n")]),
@@ -153,6 +156,9 @@ def gen_case(rng):
             sizes[p]["n"] = sizes[p]["n"] + 1  # same position disagrees with the other trees
             sizes[p]["*n"] = sizes[p]["*n"] + (2,)
         diff_struct = mode > 0.9
+        if 0.35 <= mode < 0.45 and npos:
+            p = rng.randrange(npos)
+            sizes[p]["m"] = sizes[p]["m"] + 1  # a PLAIN axis of the leaf type differs at one position: never per-leaf
         trees.append({"sizes": sizes, "diff_struct": diff_struct})
     plain = None
     if rng.random() < 0.4:
@@ -226,7 +232,10 @@ def run_real(case, vals, struct_names, style):
     from jaxtyping import jaxtyped
 
     T = LT.build(case["L"])
-    anns = [jaxtyping.PyTree[T, sn] for sn in struct_names]
+    # the structure name may be written with surrounding whitespace (the README writes " T"): every spelling of
+    # one name is that name - same structure binding, same '?' axes
+    spell = random.Random(case["seed"] + 1)
+    anns = [jaxtyping.PyTree[T, spell.choice(("{}", "{}", " {}", "{} ", "\t{}", " {} ")).format(sn)] for sn in struct_names]
     plain = case["plain"]
     items = [(f"t{i}", anns[i], vals[i]) for i in range(len(vals))]
     if plain:
